@@ -130,6 +130,7 @@ fn run_c09(line: &str) -> String {
 
 const RETRY_MAX: usize = 10;
 const RETRY_CAP_NS: u128 = 10_000_000_000;
+const RETRY_STEP_NS: u128 = 700_000_000;
 
 // ------------------------------------------------------------------ schedule
 
@@ -352,29 +353,38 @@ impl Oracle {
         match e {
             Ev::Call(b) => {
                 self.awaiting_outcome = true;
-                match self.expect_retry.take() {
-                    Some(rem) => {
-                        if &rem != b {
-                            self.fail("c06-retry");
-                        }
-                        self.attempts += 1;
+                // a retry call must carry exactly the returned remainder; a call that is exactly the queue is a
+                // new batch (the retry was not granted — fewer attempts are allowed by the property)
+                let retry = match self.expect_retry.take() {
+                    Some(rem) if &rem == b => true,
+                    Some(_) if !self.queued.is_empty() && b == &self.queued => false,
+                    Some(_) => {
+                        self.fail("c06-retry");
+                        true
                     }
-                    None => {
-                        // a new batch: the previous one (if any) is through its last attempt
-                        self.conclude();
-                        if b != &self.queued {
-                            self.fail("c06-partition");
-                        }
-                        self.queued.clear();
-                        self.inflight = b.clone();
-                        self.attempts = 1;
+                    None => false,
+                };
+                if retry {
+                    self.attempts += 1;
+                } else {
+                    // a new batch: the previous one (if any) is through its last attempt
+                    self.conclude();
+                    if b != &self.queued {
+                        self.fail("c06-partition");
                     }
+                    self.queued.clear();
+                    self.inflight = b.clone();
+                    self.attempts = 1;
                 }
                 if self.attempts > 1 + RETRY_MAX {
                     self.fail("c08-attempts");
                 }
             }
             Ev::Wait(d) => {
+                if self.expect_retry.is_some() && *d < RETRY_STEP_NS {
+                    // shorter than any retry back-off: this is the idle wait, the batch was given up
+                    self.conclude();
+                }
                 if self.expect_retry.is_some() {
                     if let Some(last) = self.batch_waits.last() {
                         if d < last {
